@@ -609,15 +609,57 @@ def st_section(draw, schema, traits, depth=0, max_elems=3, dense=False, unpaired
     return items
 
 
+BODY_LENGTH_EDGES = [9, 10, 11, 99, 100, 101, 999, 1000, 1001]      # BodyLength values around a change in its number of digits
+
+
+def pad_to_body_length(schema, spec, target):
+    """return a copy of spec whose reference encoding has BodyLength == target, by resizing (or adding) one plain string field; spec itself if that is not possible"""
+    cur = int(ref_encode(schema, spec).split(SOH)[1][2:])
+    delta = target - cur
+    if delta == 0:
+        return spec
+    secs = (('b', schema.traits(spec['type'])), ('h', schema.header), ('t', schema.trailer))
+
+    def plain(tr):
+        return (tr.ft == FT_string and not tr.grp and not tr.automatic and not schema.fields.get(tr.tag, {}).get('realm')
+                and tr.tag not in (8, 9, 35, 10))
+    for key, traits in secs:
+        for i, it in enumerate(spec[key]):
+            tr = traits.get(it['t'])
+            if tr is None or not plain(tr) or it['k'] != 's':
+                continue
+            n = len(it['v']) + delta
+            if 1 <= n <= 1500:
+                v = it['v'] + 'p' * delta if delta > 0 else it['v'][:n]
+                out = dict(spec)
+                out[key] = spec[key][:i] + [dict(it, v=v)] + spec[key][i + 1:]
+                return out
+    for key, traits in secs:
+        present = {it['t'] for it in spec[key]}
+        for tr in traits.list:
+            if tr.tag in present or tr.man or not plain(tr):
+                continue
+            n = delta - len('%d=' % tr.tag) - 1
+            if 1 <= n <= 1500:
+                out = dict(spec)
+                out[key] = spec[key] + [{'t': tr.tag, 'k': 's', 'v': 'p' * n}]
+                return out
+    return spec
+
+
 @st.composite
 def st_message(draw, schema, mtypes=None, **kw):
     mtype = draw(st.sampled_from(mtypes or schema.types()))
-    return {
+    spec = {
         'type': mtype,
         'h': draw(st_section(schema, schema.header, 0, **kw)),
         'b': draw(st_section(schema, schema.traits(mtype), 0, **kw)),
         't': draw(st_section(schema, schema.trailer, 0, **kw)),
     }
+    # one message in eight is sized to a BodyLength at which the number of its digits changes
+    if draw(st.integers(0, 7)) == 0:
+        spec = pad_to_body_length(schema, spec, draw(st.sampled_from(BODY_LENGTH_EDGES)))
+    return spec
 
 
 def spec_features(schema, spec):
